@@ -80,7 +80,7 @@ func ewVals(d ref.DT, n int, vs string) (a, b []interface{}, s interface{}) {
 			a[i] = d.Code((i % 4) - 1)
 			b[i] = d.Code(((i + i/2) % 4) - 1)
 		}
-		s = d.Code(1)
+		s = d.Code(-1) // equals the first element of both operands: ties also for one-element tensors
 	case "edge":
 		e := edgeVals(d)
 		for i := 0; i < n; i++ {
